@@ -176,6 +176,10 @@ impl Prop for C07 {
         Ok(())
     }
 
+    fn generator_counters() -> Vec<(String, u64)> {
+        vec![("payloads-with-a-checksum-byte-steered-to-1b/1a/00/01".into(), crate::gen::payload::CRC_GROUND.load(std::sync::atomic::Ordering::Relaxed))]
+    }
+
     fn to_kv(i: &Input) -> Kv {
         let mut kv = Kv::new();
         kv.put_b("payload", &i.payload);
